@@ -193,6 +193,17 @@ def check_graph(res: Res, g: G, order, rev, first):
                 j2 = are_d_separated(y, V(a), V(b), conditions=tuple(V(x) for x in reversed(c)))
                 if j2 != j:
                     res.violation("condition_order", case, f"{j2!r} != {j!r}")
+            if c and first and len(nodes) <= 3:
+                # other legal presentations of the conditioning set (any Iterable[Variable]): one-shot generator, frozenset
+                for form, conds in (("generator", (V(x) for x in c)), ("frozenset", frozenset(V(x) for x in c))):
+                    res.transitions += 1
+                    try:
+                        j3 = are_d_separated(y, V(a), V(b), conditions=conds)
+                    except Exception as e:  # noqa
+                        res.violation("argument_form", dict(case, form=form), f"raised {type(e).__name__}: {e}")
+                        continue
+                    if j3 != j:
+                        res.violation("argument_form", dict(case, form=form), f"{j3!r} with the conditions given as a {form}, {j!r} as a list")
     for (a, b, c), got in verdicts.items():
         if a < b and verdicts.get((b, a, c)) is not None and verdicts[(b, a, c)] != got:
             res.violation("symmetry", dict(base, a=a, b=b, C=list(c)), "verdict(a,b) != verdict(b,a)")
